@@ -1127,6 +1127,17 @@ fn gen_case(batch: &str, index: u64, seed: u64) -> Case {
             // converging fits that need 1e6..1e8 SMO updates: tiny n (each update is cheap), one feature of magnitude
             // 300..1000 under the linear kernel (curvature 1e5..1e6), C chosen so that C * scale^2 (the number of
             // updates a coefficient needs to reach its bound) is 5e6..1.5e7, targets that cannot be fitted
+            // every third run: badly scaled features instead (two features of scale s : 1, targets an exact linear
+            // function of the small one, optimum strictly inside the box): SMO zig-zags for about 3 s^2 updates of
+            // real progress
+            if index % 3 == 2 {
+                let n = pr.usize_in(4, 5);
+                let s2 = if index >= 216 { logu(&mut pr, 8e3, 2e4) } else { logu(&mut pr, 2e3, 5e3) };
+                let b: Vec<f64> = (0..n).map(|_| r.range(-1.5, 1.5)).collect();
+                let x: Vec<Vec<f64>> = (0..n).map(|i| vec![s2 * r.range(-2.0, 2.0), b[i]]).collect();
+                let y: Vec<f64> = b.iter().map(|v| 2.0 * v).collect();
+                return Case { model: "svr".into(), x, y, kernel: KSpec { kind: "linear".into(), gamma: 0.0, degree: 0.0, coef0: 0.0 }, c: 100.0, tol: 1e-4, epoch: 0, eps: 0.0, f32m: false, queries: vec![], budget: 100_000_000_000, tape: TapeSpec::prng(tape_seed), kind: "svr-marathon".into(), ctor: (seed % 4) as u8 };
+            }
             let n = pr.usize_in(4, 8);
             let scale = logu(&mut pr, 300.0, 1000.0);
             // the last 24 runs of the thorough tier go further: 3e7..1e8 (1e8..several 1e9 updates, minutes per fit)
